@@ -13,7 +13,6 @@ import (
 	"sync"
 	"time"
 
-	"verifengine/smt"
 	"verifengine/solve"
 	"verifengine/vc"
 )
@@ -219,6 +218,15 @@ func cmdCheck(args []string) int {
 		return 2
 	}
 	t0 := time.Now()
+	// global watchdog: a check must never hang
+	limit := 20 * time.Minute
+	if *tier == "thorough" {
+		limit = 60 * time.Minute
+	}
+	time.AfterFunc(limit, func() {
+		fmt.Printf("ENGINE-ERROR property=%s: check exceeded its global time limit (%s)\n", *prop, limit)
+		os.Exit(2)
+	})
 	seed, _ := strconv.Atoi(os.Getenv("VERIF_SEED"))
 	timeout := 20 * time.Second
 	if *tier == "thorough" {
@@ -308,37 +316,44 @@ func cmdCheck(args []string) int {
 				oo.Status = "error"
 				continue
 			}
+			// case-split variants are rendered here, sequentially: the term
+			// builder of a function is not safe for concurrent use
+			var caseFiles []string
+			if o.Kind != "cover" {
+				if cases := r.CaseSplits(o, 2); len(cases) > 1 {
+					for ci, cs := range cases {
+						ctext := r.SMTTextWith(o, cs, true) + "(get-model)\n"
+						cname := strings.TrimSuffix(fname, ".smt2") + fmt.Sprintf(".case%d.smt2", ci)
+						if os.WriteFile(cname, []byte(ctext), 0o644) == nil {
+							caseFiles = append(caseFiles, cname)
+						}
+					}
+				}
+			}
 			swg.Add(1)
-			go func(oo *oblOut, fname string, cover bool) {
+			go func(oo *oblOut, fname string, cover bool, caseFiles []string) {
 				defer swg.Done()
 				to := timeout
 				if cover {
 					to = 10 * time.Second
 				}
 				var res solve.Result
-				cases := [][]*smt.Term(nil)
-				if !cover {
-					cases = oo.res.CaseSplits(oo.obl, 2)
-				}
-				if len(cases) > 1 {
+				if len(caseFiles) > 1 {
 					// race the plain query against a case analysis on the ite conditions
 					type cr struct {
 						idx int
 						r   solve.Result
 					}
-					ch := make(chan cr, len(cases)+1)
+					ch := make(chan cr, len(caseFiles)+1)
 					go func() { ch <- cr{-1, solve.Run(fname, to, "")} }()
-					for ci, cs := range cases {
-						ctext := oo.res.SMTTextWith(oo.obl, cs, true) + "(get-model)\n"
-						cname := strings.TrimSuffix(fname, ".smt2") + fmt.Sprintf(".case%d.smt2", ci)
-						os.WriteFile(cname, []byte(ctext), 0o644)
+					for ci, cname := range caseFiles {
 						go func(ci int, cname string) { ch <- cr{ci, solve.Run(cname, to, "")} }(ci, cname)
 					}
 					okCases := 0
 					var base *solve.Result
 					total := 0.0
 					done := false
-					for k := 0; k < len(cases)+1 && !done; k++ {
+					for k := 0; k < len(caseFiles)+1 && !done; k++ {
 						c := <-ch
 						total += c.r.Seconds
 						if c.idx < 0 {
@@ -352,14 +367,12 @@ func cmdCheck(args []string) int {
 						}
 						if c.r.Status == "unsat" {
 							okCases++
-							if okCases == len(cases) {
+							if okCases == len(caseFiles) {
 								res = c.r
 								res.Solver = c.r.Solver + "+cases"
 								res.Seconds = total
 								done = true
 							}
-						} else if c.r.Status == "sat" && base == nil {
-							// a satisfiable case refutes the obligation too; wait for base for the model
 						}
 					}
 					if !done {
@@ -378,7 +391,7 @@ func cmdCheck(args []string) int {
 				oo.Seconds = res.Seconds
 				oo.output = res.Output
 				mu.Unlock()
-			}(oo, fname, o.Kind == "cover")
+			}(oo, fname, o.Kind == "cover", caseFiles)
 		}
 	}
 	swg.Wait()
